@@ -114,6 +114,10 @@ func (g *Gen) BuildObs(big bool) *Case {
 	}
 	b := g.Batch(o)
 	c.Ops = []Op{{Code: OpBuild, CM: cm, Batch: b}, {Code: OpObsAll, Slot: 0}}
+	if !big {
+		// the builder's in-memory state against the builder model
+		c.Ops = append(c.Ops, Op{Code: OpInterim, Batch: b})
+	}
 	c.tagBatch(b, cm)
 	return c
 }
